@@ -123,6 +123,9 @@ let run_mem (infile : string) (outfile : string) =
   let srv = ref (srv_init O) in
   let case = ref "" and step = ref 0 and bad = ref None in
   let steps = ref 0 and cases = ref 0 and mism = ref 0 in
+  (* steps on which the model's answer followed the observed reply (INCRBYFLOAT outside the exactly
+     modelled decimal domain): counted, so the evidence says how many comparisons were vacuous *)
+  let ood = ref 0 in
   let pending_dump = ref [] in
   let pending_bg = ref [] in            (* G lines (commands of other connections) before an S line *)
   let watchdog_ms = ref "100000050" in  (* WD line: harness cancels a step still blocked after this long *)
@@ -175,6 +178,11 @@ let run_mem (infile : string) (outfile : string) =
                  if e <> o then fail "bg-reply" e o) bgs outs
            end else begin
            let (r, s') = srv_exec !srv (z_of_string conn) (z_of_string now) (z_of_string nowms) args hint in
+           (if name = "incrbyfloat" then begin
+               let (r0, _) = srv_exec !srv (z_of_string conn) (z_of_string now) (z_of_string nowms) args
+                   (RErr (bytes_of_string "!NOHINT")) in
+               if print_reply r0 <> print_reply r || r0 = RErr (bytes_of_string "!NOHINT") then incr ood
+             end);
            srv := s';
            let exp = canon_for_cmd name (print_reply r) in
            if exp <> obs then fail "reply" exp obs
@@ -212,5 +220,5 @@ let run_mem (infile : string) (outfile : string) =
          | None -> Printf.fprintf oc "OK %s\n" !case
          | Some m -> incr mism; Printf.fprintf oc "MISMATCH %s %s\n" !case m)
       end) (read_lines infile);
-  Printf.fprintf oc "SUMMARY cases=%d steps=%d mismatches=%d\n" !cases !steps !mism;
+  Printf.fprintf oc "SUMMARY cases=%d steps=%d mismatches=%d ood=%d\n" !cases !steps !mism !ood;
   close_out oc
